@@ -120,8 +120,8 @@ fn main() {
                         28..=39 => { let b = gen_bytes(&mut rng, false); json!({"op": "get", "h": h, "bytes": b, "text": lossy(&b)}) }
                         40..=51 => { let b = gen_bytes(&mut rng, false); let k = rng.below(400) as i64 - 100; bound[h] += k.abs(); json!({"op": "set", "h": h, "bytes": b, "text": lossy(&b), "n": k}) }
                         52..=61 => { let b = gen_bytes(&mut rng, false); let k = rng.below(400) as i64 - 100; bound[h] += k.abs(); json!({"op": "increment", "h": h, "bytes": b, "text": lossy(&b), "n": k}) }
-                        62..=71 => { let g = *rng.pick(&live); if bound[h] + bound[g] < 100_000_000 { bound[h] += bound[g]; json!({"op": "add", "h": h, "g": g}) } else { json!({"op": "mass", "h": h}) } }
-                        72..=79 => { let g = *rng.pick(&live); if bound[h] + bound[g] < 100_000_000 { bound[h] += bound[g]; json!({"op": "subtract", "h": h, "g": g}) } else { json!({"op": "mass", "h": h}) } }
+                        62..=71 => { let g = *rng.pick(&live); if g != h && bound[h] + bound[g] < 100_000_000 { bound[h] += bound[g]; json!({"op": "add", "h": h, "g": g}) } else { json!({"op": "mass", "h": h}) } }
+                        72..=79 => { let g = *rng.pick(&live); if g != h && bound[h] + bound[g] < 100_000_000 { bound[h] += bound[g]; json!({"op": "subtract", "h": h, "g": g}) } else { json!({"op": "mass", "h": h}) } }
                         80..=87 => { let k = rng.below(9) as i64 - 3; if bound[h] * k.abs().max(1) < 100_000_000 { bound[h] *= k.abs().max(1); json!({"op": "scale", "h": h, "n": k}) } else { json!({"op": "mass", "h": h}) } }
                         88..=93 => json!({"op": "mass", "h": h}),
                         _ => json!({"op": "free", "h": h}),
